@@ -346,10 +346,20 @@ func DeleteArgByAddress(repo string) (bool, error) {
 		})
 	}
 	if calls != 4 {
+		if Lenient {
+			// the runner goes on with the repaired reading (the delete arguments are passed as they
+			// are) and lets the sweep over the real builders decide; the translator stays strict
+			return false, nil
+		}
 		return false, fmt.Errorf("filtersForSelectorsElements: expected 4 add*ToFilter calls, found %d", calls)
 	}
 	return found, nil
 }
+
+// Lenient is set by the runner (not by the translator): a source shape the AST readers do not
+// recognise is then no reason to stop, so that the search for a concrete failing input still runs
+// when the tie by regeneration is already reported as broken.
+var Lenient bool
 
 func title(s string) string {
 	if s == "" {
